@@ -92,10 +92,12 @@ pub fn shape(tok: &str) -> String {
             'u'
         } else if c.is_ascii_control() {
             'c'
+        } else if "!$%&*/<=>?^_~@".contains(c) {
+            'p'
         } else {
             c
         };
-        if matches!(k, '9' | 'a' | 'u' | 'c') && k == last {
+        if matches!(k, '9' | 'a' | 'u' | 'c' | 'p') && k == last {
             continue;
         }
         out.push(k);
@@ -129,7 +131,7 @@ pub fn tok_class(tok: &str) -> String {
             return "sign-unicode".into();
         }
     }
-    crate::mv::clip(&shape(tok), 6)
+    crate::mv::clip(&shape(tok), 12)
 }
 
 /// The maximal run of non-delimiter bytes around byte `offset` of `text`.
